@@ -442,6 +442,9 @@ class Table(JupyterMixin):
     def _calculate_column_widths(self, console: "Console", max_width: int) -> List[int]:
         """Calculate the widths of each column, including padding, not including borders."""
         columns = self.columns
+        if not columns:
+            # Nothing to distribute the width over (ratio_distribute asserts a positive total)
+            return []
         width_ranges = [
             self._measure_column(console, column, max_width) for column in columns
         ]
